@@ -1075,7 +1075,8 @@ class Lexer:
                         TagToken(
                             type_=TokenType.TAG,
                             start=self.line_start,
-                            stop=self.pos,
+                            # The statement ends where the closing delimiter begins.
+                            stop=match.start(),
                             wc=self.WC_DEFAULT,
                             name=self.tag_name,
                             expression=self.expression,
